@@ -20,6 +20,7 @@ package mqttproxy
 import (
 	"encoding/base64"
 	"sync"
+	"sync/atomic"
 	"time"
 
 	"gopkg.in/yaml.v2"
@@ -61,6 +62,9 @@ type (
 	}
 )
 
+// sessionStoreSeq orders the snapshots taken by Session.store.
+var sessionStoreSeq uint64
+
 func newMsg(topic string, payload []byte, qos byte) *Message {
 	m := &Message{
 		Topic:      topic,
@@ -85,9 +89,13 @@ func (s *Session) store() {
 		logger.SpanErrorf(nil, "encode session %+v failed: %v", s, err)
 		return
 	}
+	// snapshots travel to the storage in goroutines of their own: number them
+	// (callers hold the session mutex) so that doStore can drop a snapshot
+	// that has been overtaken by a newer one.
 	ss := SessionStore{
 		key:   s.info.ClientID,
 		value: str,
+		seq:   atomic.AddUint64(&sessionStoreSeq, 1),
 	}
 	go func() {
 		s.storeCh <- ss
